@@ -37,7 +37,8 @@ SCALAR-PER-PARTICLE READING (trusted, quoted in DESIGN.md).  There is ONE partic
     translate_maps); `torch.broadcast_tensors(a, ..)` = (a, ..) (views: not writable); `torch.ones_like(x)` = 1,
     `torch.zeros_like(x)` = 0, `torch.ones(<shape>)` = 1, `torch.ones((*<shape>, n), dtype=.., device=..)` = n ones;
   * statements: `x = e`, `a, b = e` (also nested lists/tuples of reals returned by a translated function: they are
-    destructured completely, `t[0][1]` then selects the component), `v[..., i] = e`, `v[..., :k] = w`, `return e`,
+    destructured completely, `t[0][1]` then selects the component), `m = (a < b)` (a mask bound to a name),
+    `v[..., i] = e`, `v[..., :k] = w`, `return e`,
     docstrings, `if <python bool>: ..` (see enumerations below), and
         for _ in range(n): BODY            let '(s1, .., sk) := py_for n (fun '(s1, .., sk) => BODY; (s1, .., sk)) (s1, .., sk)
     where s1..sk are the names assigned in BODY that were bound before the loop (in the order of their first binding);
@@ -73,8 +74,9 @@ PRIMITIVE TABLE (trusted): + - * / unary -, e ** n (n a literal natural) = e ^ n
   sin(PI x)/(PI x)) (BmadxGenBase.v),  double_precision_epsilon = dp_eps = 2^-52 ONLY if bound in the module by exactly
   `double_precision_epsilon = torch.finfo(torch.float64).eps`,  electron_mass_eV = m_e (idiom of translate_maps),
   speed_of_light = c_light (from scipy.constants import speed_of_light, or `speed_of_light = constants.speed_of_light`),
-  electron_mass = mass_kg (`electron_mass = constants.electron_mass`; an abstract positive constant of BmadxGenBase.v is
-  NOT used: it is a parameter of the generated definitions that mention it).
+  electron_mass (kg; only if bound by exactly `electron_mass = constants.electron_mass`) has no Coq constant: a generated
+  definition that mentions it gets a leading parameter `mass_kg : R` (Beam/SI.v's theorems are for all positive constants);
+  calling such a definition from another translated function fails.
   comparisons a < b, a <= b, a > b, a >= b (Rlt_dec / Rle_dec), a == b, a != b (Req_EM_T), & | ~ on masks.
 
 NOT covered: float rounding, overflow, nan/inf (see MASKS); broadcasting/batching (C04/C08 vectorised checks); the class
@@ -691,6 +693,8 @@ class BxFn(FnTr):
         if name == "stack":
             if len(args) != 1 or [k.arg for k in n.keywords] != ["dim"] or not minus_one(n.keywords[0].value):
                 self.fail(n, "torch.stack: only torch.stack([..], dim=-1) is understood")
+            if not isinstance(args[0], (ast.List, ast.Tuple)):
+                self.fail(n, "torch.stack: the columns must be written as a list/tuple display")
             v = self.ev(args[0], env)
             if not isinstance(v, Tup):
                 self.fail(n, "torch.stack of something that is not a list/tuple")
@@ -751,8 +755,8 @@ class BxFn(FnTr):
         if isinstance(target, ast.Name):
             if target.id == "self":
                 self.fail(node, "assignment to self")
-            if isinstance(v, (Meta, PyBool, Str, Token, Nat)):
-                env[target.id] = v
+            if isinstance(v, (Meta, PyBool, Str, Token, Nat, Cond)):
+                env[target.id] = v          # (a mask bound to a name: its Coq terms stay valid, every Coq binder is fresh)
                 return "", env
             if isinstance(v, Sc):
                 nm = self.fresh(target.id)
@@ -1144,13 +1148,28 @@ class Translator:
 
 
 def locate(repo):
-    """Only locate the functions of SPECS (no translation): [(qualified name, file, first_line, last_line, sha256)]."""
-    tr, out = Translator(repo), []
+    """Only locate the functions of SPECS (no translation): [(qualified name, file, first_line, last_line, sha256)], followed by
+    the module-level constants of the primitive table and the alias properties (ParticleBeam.p) the translation depends on."""
+    tr, out, seen = Translator(repo), [], set()
     for spec in SPECS:
         mod = tr.module(spec["file"])
-        _, f, _ = BxFn(tr, spec, mod, {}).find()
+        _, f, cb = BxFn(tr, spec, mod, {}).find()
         first, last, seg = mod.segment(f)
         out.append(((spec["cls"] + "." if spec["cls"] else "") + spec["fn"], spec["file"], first, last, hashlib.sha256(seg.encode()).hexdigest()))
+        for a in spec.get("aliases", {}):
+            for kind, _, node in cb.get(a, []):
+                if kind == "def" and (spec["cls"], a, node.lineno) not in seen:
+                    seen.add((spec["cls"], a, node.lineno))
+                    first, last, seg = mod.segment(node)
+                    out.append((f"{spec['cls']}.{a}@{len([x for x in seen if x[:2] == (spec['cls'], a)])}", spec["file"], first, last,
+                                hashlib.sha256(seg.encode()).hexdigest()))
+        if spec["file"] not in seen:
+            seen.add(spec["file"])
+            for name in GLOBAL_CONST:
+                for kind, _, node in mod.bind.get(name, []):
+                    if kind == "assign":
+                        seg = "\n".join(mod.src.splitlines()[node.lineno - 1:node.end_lineno])
+                        out.append((f"<module constant {name}>", spec["file"], node.lineno, node.end_lineno, hashlib.sha256(seg.encode()).hexdigest()))
     return out
 
 
